@@ -49,11 +49,6 @@ func (h *bindFuncHandler) handle(p *ber.Packet, el eventLog) []*ber.Packet {
 	version := readVersion(p)
 	el["ldap.version"] = version
 
-	if version < 2 {
-		reth.resultCode = ResProtocolError
-		return reth.handle(p, el)
-	}
-
 	// make sure we have at least our version number, bind dn and bind password
 	if len(p.Children[1].Children) < 3 {
 		el["ldap.malformed-payload"] = p.Data.Bytes()
@@ -96,6 +91,12 @@ func (h *bindFuncHandler) handle(p *ber.Packet, el eventLog) []*ber.Packet {
 	}
 
 	el["ldap.password"] = string(bindPw)
+
+	// refuse old protocol versions only after the presented name and password are recorded
+	if version < 2 {
+		reth.resultCode = ResProtocolError
+		return reth.handle(p, el)
+	}
 
 	// call back to the auth handler
 	if h.bindFunc(bindDn, bindPw) {
